@@ -17,7 +17,8 @@ wave 5 (the clock advances inside a request):
   cfg stampExact 0|1                 -> ok
   evr <t> <i1,i2,…|-> <event…>       -> <reply>;reads=<n>     (read n of the request returns t+i1+…+in; `reads` =
                                         number of clock reads the model performs, compared with the real code's)
-     with no increments the request is also run through `step2` at clock `t`: a difference prints `bad-refine`
+     (a request without increments is the `step2` request at clock `t`: theorem `stepR_const_eq_step2`)
+  ev|evr … loadord <id,id,…|->        load-state with the directory listing order of the stored ids (wave 6)
   live is printed by ascending id and the ids destroyed by ONE request in ascending order (dict / directory
   listing order after a load-state is not part of the model)
 -/
@@ -57,6 +58,7 @@ def parseEv2 : List String → Option Ev2
   | ["stop", i] => i.toNat?.map .stop
   | ["savestate"] => some .saveState
   | ["loadstate"] => some .loadState
+  | ["loadord", o] => if o == "-" then some (.loadOrd []) else ((o.splitOn ",").mapM (fun (x : String) => x.toNat?)).map .loadOrd
   | l => (parseEv l).map .old
 
 structure DS where
@@ -86,8 +88,6 @@ def stepLine (d : DS) (line : String) : DS × String :=
       | some t, some incs, some e =>
         let cr : CfgR := { keepAliveRestores := c.keepAliveRestores, stampExact := d.stampExact }
         let (s', ok, n) := stepR cr (rdOf t incs) s e
-        let (s2, ok2) := step2 c s t e
-        if incs.isEmpty && d.stampExact && !(sameState s' s2 && ok == ok2) then (d, "bad-refine") else
         let (out, shown') := reply s' ok d.shown
         ({ d with s := s', shown := shown' }, out ++ s!";reads={n}")
       | _, _, _ => (d, "bad-op")
